@@ -2697,9 +2697,14 @@ class SchemaValidator:
                             for sub_item in item[field_name]:
                                 unique_values[sub_item] = sub_item not in unique_values
                         else:
-                            unique_values[item[field_name]] = (
-                                item[field_name] not in unique_values
-                            )
+                            value = item[field_name]
+                            if isinstance(value, str) and self._unique_field_is_ref(
+                                obj_spec, field_name
+                            ):
+                                # two spellings of one reference are the same value
+                                value = self._normalize_ref(value)
+
+                            unique_values[value] = value not in unique_values
                     elif is_path(field_name):
                         val = self._get_field(field_name, obj=item)
                         unique_values[val] = val not in unique_values
@@ -2726,6 +2731,20 @@ class SchemaValidator:
                     ]
 
         return errors
+
+    def _unique_field_is_ref(self, obj_spec, field_name):
+        values_spec = obj_spec["values"] if "values" in obj_spec else None
+        if not isinstance(values_spec, dict):
+            return False
+
+        if "obj_spec_name" in values_spec:
+            values_spec = utils.get_obj_spec(values_spec["obj_spec_name"])
+
+        if "properties" not in values_spec or field_name not in values_spec["properties"]:
+            return False
+
+        prop_spec = values_spec["properties"][field_name]
+        return isinstance(prop_spec, dict) and prop_spec.get("type") == "ref"
 
     def _get_field(
         self,
